@@ -1,9 +1,19 @@
 chk("C03", "proof",
     "Coq theorems (coq/Properties/C03.v) relate the transcription of ISD style resolution (animation, specified, direction, inheritance, "
     "initial values, ordered computation of the 11 length-bearing properties) to an independently organised, by-property specification of "
-    "TTML2 cascade and length resolution (see the file for the exact list and for what remains `_partial`). The transcription is compared "
-    "with ISD.from_model inside Coq on style-heavy generated documents (all 36 properties, all units, resolutions, writing modes, initial "
-    "values, animation, all element kinds) and the specification is evaluated in Coq on every styled element of the code's snapshots.",
+    "TTML2 cascade and length resolution. Proved for every document, time and ancestor chain, for ALL 36 properties "
+    "(C03_all_properties: sget st p = computed_spec d t chain p): the cascade of the 24 plain properties, the computed font size incl. ruby "
+    "halving, tts:textDecoration merging per component, tts:direction with the writing-mode semantics on regions, the region's writing mode, "
+    "tts:extent, tts:origin/tts:position (edges, computed extent), tts:padding (axis by writing mode), tts:lineHeight, tts:linePadding, "
+    "tts:rubyReserve, tts:textOutline, tts:textShadow, tts:textEmphasis; _compute_length = spec `rel`; and, by rose-tree induction over "
+    "_process_element, for every element of every snapshot `isd d t` (C03_snapshot_values: each element other than br/text carries, for "
+    "every applicable property, the computed value of its source element along its ancestor chain). Hypotheses: chain shape (chain_ok) "
+    "resp. content model (styles_wf), and td_typed (textDecoration values in effect are TextDecoration values, which ttconv.model "
+    "enforces when a value is set). Compared, not proved: M = ISD.from_model on style-heavy generated documents (all 36 properties, all "
+    "units the validators admit, resolutions, writing modes, initial values, animation, all element kinds; boosted for ruby text, vertical "
+    "regions with emphasis auto, position as initial value, partial text decoration) evaluated in Coq, and the specification evaluated in "
+    "Coq on every styled element of the code's snapshots; the measured input distribution is in the evidence.",
     "Trusted: Coq kernel; harness literal printer; Spec/StyleSpec.v as a reading of TTML2 10.4 / IMSC. Numbers are rationals in the model; "
-    "the code's binary64 results are accepted within relative 1e-9. Recorded finding: textEmphasis auto uses the parent's writing mode.",
+    "the code's binary64 results are accepted within relative 1e-9. No recorded finding left: textEmphasis auto is repaired "
+    "(fix: the region's writing mode is carried down by StyleProcessors.WritingMode.inherit).",
     "Coq theorems + in-Coq evaluation of model and by-property specification on generated documents", "DESIGN.md section 5 C03")
